@@ -59,8 +59,15 @@ def op(f):
     return f
 
 
+WRAP = [False]
+
+
 def f64(a):
-    return np.ascontiguousarray(np.asarray(a, dtype=np.float64))
+    a = np.ascontiguousarray(np.asarray(a, dtype=np.float64))
+    if WRAP[0]:
+        import proxy
+        return proxy.wrap(a, "arg:%dd" % a.ndim)
+    return a
 
 
 # --------------------------------------------------------------------------- kernels
@@ -207,6 +214,49 @@ def api_ttgrid(t):
     if t.get("want_gradient"):
         out["grad"] = [np.array(x.grid) for x in g.gradient]
     return out
+
+
+@op
+def strict_run(t):
+    """Run another kernel-level op under the recording proxies (interpreter mode): every array
+    access is checked by the strict-index proxy (out-of-range, or negative unless the source
+    text of the subscript is a literal negative constant) and its source position recorded."""
+    assert INTERP
+    import proxy
+    import re
+    inner = dict(t["inner"])
+    WRAP[0] = True
+    try:
+        with proxy.Recorder(patch_min=False) as rec:
+            try:
+                r = OPS[inner["op"]](inner)
+                st = "ok"
+            except BaseException as ex:  # noqa: BLE001
+                if isinstance(ex, (KeyboardInterrupt, SystemExit, Timeout)):
+                    raise
+                st = errcode(ex)
+    finally:
+        WRAP[0] = False
+    srcs = {}
+    bad = []
+    for pos, tag, idx, shp, why in rec.strict:
+        fn, func, ln, col, eln, ecol = proxy.position(pos)
+        if why == "neg" and ln is not None and eln == ln:
+            if fn not in srcs:
+                srcs[fn] = open(fn).read().split("\n")
+            seg = srcs[fn][ln - 1][col:ecol]
+            if re.search(r"\[\s*-\d+\s*\]$", seg):
+                continue   # literal a[-1] / a[-2]
+        bad.append({"file": os.path.relpath(fn, REPO), "function": func, "line": ln, "col": col,
+                    "index": idx, "shape": shp, "why": why})
+    sites = set()
+    for e in rec.events:
+        if e[0] in ("r", "w") and e[3] is not None:
+            fn, func, ln, col, _, _ = proxy.position(e[1])
+            if fn.startswith(REPO):
+                sites.add((os.path.relpath(fn, os.path.join(REPO, "fteikpy")), func, ln, col))
+    return {"inner_status": st, "bad": bad[:10], "n_bad": len(bad), "sites": sorted(sites),
+            "n_access": len(rec.events)}
 
 
 def run_task(t):
